@@ -443,7 +443,26 @@ func build(c Case) (*world, *imgen.Graph) {
 	}
 	w.rt = &memrt.RT{Handler: w.handle}
 	lh := slog.NewTextHandler(w.logBuf, &slog.HandlerOptions{Level: slog.Level(-8)})
-	w.rc = regclient.New(regclient.WithConfigHosts(chs), regclient.WithSlog(slog.New(lh)),
+	// 30% of the clients are configured twice (a stale login first, as a config file followed by docker credentials
+	// does): the stale secrets are secrets too, and the merge must not print either of them
+	var stale []config.Host
+	if c.Seed%10 < 3 {
+		for _, ch := range chs {
+			o := ch
+			switch {
+			case o.Token != "":
+				o.Token = "stale-" + o.Token
+				w.secrets[o.Token] = secret{owner: o.Name, kind: "cred"}
+			case o.Pass != "":
+				o.Pass = "stale-" + o.Pass
+				w.secrets[o.Pass] = secret{owner: o.Name, kind: "cred"}
+			default:
+				continue
+			}
+			stale = append(stale, o)
+		}
+	}
+	w.rc = regclient.New(regclient.WithSlog(slog.New(lh)), regclient.WithConfigHosts(stale), regclient.WithConfigHosts(chs),
 		regclient.WithRegOpts(reg.WithHTTPClient(&http.Client{Transport: w.rt}), reg.WithDelay(time.Millisecond, 3*time.Millisecond), reg.WithRetryLimit(4)))
 	// content
 	g := &imgen.Graph{}
